@@ -16,6 +16,21 @@ type mutant struct {
 }
 
 var mutants = []mutant{
+	// operators added with the rules that the seeded changes of round 3 motivated
+	{"C01-unescape-after-scrub", "C01", "pub/link.go", "\t\t\treturn l.uri.String(), nil\n\t\t} else {\n\t\t\treturn \"\", l.uriErr", "\t\t\tdecoded, _ := url.PathUnescape(l.uri.String())\n\t\t\treturn decoded, nil\n\t\t} else {\n\t\t\treturn \"\", l.uriErr", "C01.R1"},
+	{"C01-scrub-fast-path", "C01", "ansi/ansi.go", "func Scrub(text string) string {\n", "func Scrub(text string) string {\n\tif !strings.ContainsAny(text, \"\\x1b\\x07\\x00\") {\n\t\treturn text\n\t}\n", "C01.R4"},
+	{"C17-scrub-keeps-c1", "C17", "ansi/ansi.go", "if input != '\\n' && unicode.IsControl(input) {", "if input != '\\n' && input < 0x80 && unicode.IsControl(input) {", "C17.R6"},
+	{"C03-inflight-key-no-query", "C03", "client/client.go", "uriString := uri.String()", "uriString := uri.Scheme + \"://\" + uri.Host + uri.EscapedPath()", "C03.R8"},
+	{"C04-location-fallback-literal", "C04", "jtp/jtp.go", "\treference, err := url.Parse(matches[1])\n\tif err != nil {\n\t\treturn nil, true, err\n\t}", "\treference, err := url.Parse(matches[1])\n\tif err != nil {\n\t\treference = &url.URL{Path: \"/\", RawQuery: matches[1]}\n\t}", "C04.R4"},
+	{"C05-semaphore-leak", "C05", "client/client.go", "func FetchURL(uri *url.URL) (object.Object, *url.URL, error) {\n\turiString := uri.String()\n\tb, _, _ := group.Do(uriString, func() (any, error) {", "var slots = make(chan struct{}, 8)\n\nfunc FetchURL(uri *url.URL) (object.Object, *url.URL, error) {\n\turiString := uri.String()\n\tb, _, _ := group.Do(uriString, func() (any, error) {\n\t\tslots <- struct{}{}", "C05.R7"},
+	{"C05-package-level-memo", "C05", "jtp/jtp.go", "\tif link.Scheme != \"https\" {\n\t\treturn nil, nil, errors.New(link.Scheme + \" is not supported in requests, only https\")\n\t}", "\tif link.Scheme != \"https\" {\n\t\tmediaTypeRegexp = nil\n\t\treturn nil, nil, errors.New(link.Scheme + \" is not supported in requests, only https\")\n\t}", "C05.R6"},
+	{"C07-shared-page", "C07", "ui/ui.go", "\tcase pub.Tangible:\n\t\t_, frontier := narrowed.Parents(0)\n\t\ts.h.Add(&Page{\n\t\t\tfeed:     feed.Create(narrowed),\n\t\t\tchildren: narrowed.Children(),\n\t\t\tfrontier: frontier,\n\t\t})", "\tcase pub.Tangible:\n\t\ts.h.Add(s.h.Current())", "C07.R6"},
+	{"C09-remembered-collection", "C09", "pub/collection.go", "func NewCollectionFromObject(o object.Object, id *url.URL, construct func(any, *url.URL) Tangible) (*Collection, error) {\n\tc := &Collection{}", "var lastCollection *Collection\n\nfunc NewCollectionFromObject(o object.Object, id *url.URL, construct func(any, *url.URL) Tangible) (*Collection, error) {\n\tif lastCollection != nil && id == nil {\n\t\treturn lastCollection, nil\n\t}\n\tc := &Collection{}", "C09.R3"},
+	{"C10-harvest-remembers", "C10", "pub/collection.go", "func (c *Collection) Harvest(amount uint, startingPoint uint) ([]Tangible, Container, uint) {\n", "func (c *Collection) Harvest(amount uint, startingPoint uint) ([]Tangible, Container, uint) {\n\tc.size = uint64(amount)\n", "C10.R6"},
+	{"C11-sources-in-arrival-order", "C11", "splicer/splicer.go", "\t\t\tcase *pub.Collection:\n\t\t\t\ts[i].page = narrowed", "\t\t\tcase *pub.Collection:\n\t\t\t\ts[len(inputs)-1-i].page = narrowed", "C11.R8"},
+	{"C17-getany-bypasses-getprimitive", "C17", "object/object.go", "\treturn getPrimitive[any](o, key)", "\tif value, ok := o[key]; ok {\n\t\treturn value, nil\n\t}\n\treturn getPrimitive[any](o, key)", "C17.R4"},
+	{"C19-timeout-bound-removed", "C19", "config/config.go", "\tif config.Network.Timeout > math.MaxInt64/time.Second {", "\tif config.Network.Timeout > math.MaxInt64 {", "C19.R4"},
+	{"C20-hook-filtered", "C20", "config/config.go", "\tif len(config.Media.Hook) == 0 {", "\tconfig.Media.Hook = append([]string{}, config.Media.Hook...)\n\tif len(config.Media.Hook) == 0 {", "C20.R6"},
 	// operators added with the rules that the seeded changes of round 2 motivated
 	{"C03-cache-key-components", "C03", "jtp/jtp.go", "key := link.String() + \" \" + accept", "key := link.Host + link.RequestURI() + \" \" + accept", "C03.R6"},
 	{"C03-readline-fragments", "C03", "jtp/jtp.go", "func findLocation(buf *bufio.Reader, baseLink *url.URL) (*url.URL, error) {\n\tfor {\n\t\tline, err := buf.ReadString('\\n')", "func findLocation(buf *bufio.Reader, baseLink *url.URL) (*url.URL, error) {\n\tfor {\n\t\traw, _, err := buf.ReadLine()\n\t\tline := string(raw) + \"\\n\"", "C03.R7"},
